@@ -337,6 +337,26 @@ def linearize_segment(events, sites):
                     lin.append((k, dict(blank, e='wreg', a=[a[0], a[2 + nreg]])))
             if not subs:
                 lin.append((key_for(tickets[0] if tickets else 0), dict(base, lockviol=['no-hook-events'])))
+        elif d['e'] == 'dmock' and not d['skip']:
+            # a mock object's destruction is one critical section per expectation list: the member functions in reverse
+            # declaration order, for each the active list and then the saturated one (hook "mock_dtor" inside each)
+            a = d['a']
+            order = [(1, 0), (1, 1)] if a[0] == 3 else [(f, w) for f in (4, 3, 2, 1) for w in (0, 1)]
+            subs = [h for h in hooks if h['n'] == 'mock_dtor']
+            if len(subs) != len(order):
+                lin.append((key_for(tickets[0] if tickets else 0), dict(base, lockviol=['no-hook-events'])))
+            else:
+                raw_t = [r.get('t', 0) for r in d['reps']]
+                used = set()
+                for i, (h, (f, w)) in enumerate(zip(subs, order)):
+                    mine = [j for j, t in enumerate(raw_t) if t == h['t'] and h['t']]
+                    used.update(mine)
+                    final = 1 if i == len(order) - 1 else 0
+                    ev = dict(blank, e='dmlist', a=[a[0], f, w, final], reps=[base['reps'][j] for j in mine])
+                    if final:      # anything not sent from one of the sections is left for the validator to reject
+                        ev['reps'] = ev['reps'] + [base['reps'][j] for j in range(len(raw_t)) if j not in used]
+                        ev['lockviol'] = base['lockviol']
+                    lin.append((key_for(h['t']), ev))
         elif d['e'] == 'query' and not d['skip'] and len(tickets) == 2:
             # is_satisfied() and is_saturated() are two critical sections
             lin.append((key_for(tickets[0]), dict(base, e='qsat', q=[base['q'][0], -1])))
